@@ -234,6 +234,32 @@ _dict_op("add_extras", F_EXTRAS, lambda n, k, v: n.add_extras(k, v), False)
 _dict_op("extras_item", F_EXTRAS, lambda n, k, v: n.extras.__setitem__(k, v), True)
 
 
+@kind("nsmap_item")
+class NsmapItem:
+    """n.nsmap[prefix] = uri through the property's dictionary.  Used by the copy
+    profile only: which other nodes of the same tree share the dictionary is the
+    library's memory optimisation, but the counterpart of a copy never may."""
+
+    def gen(self, g):
+        h = g.any_node()
+        return {"k": "nsmap_item", "s": g.sess, "n": g.sel("own", h), "p": g.prefix(), "u": g.uri()}
+
+    def resolve(self, V, op):
+        return {"n": V.pick("own", op["s"], op["n"])}
+
+    def run(self, W, R, op):
+        W.node(R["n"]).nsmap[op["p"]] = op["u"]
+
+    def spec(self, pre, R, op, out):
+        e = Exp()
+        ns = pre.cells[R["n"]][NS]
+        if ns and ns[0] in ("notdict", "unsortable"):
+            e.adopt(R["n"], NS)
+        else:
+            e.want(R["n"], NS, _ns_set(ns, op["p"], op["u"]))
+        return e
+
+
 @kind("rm_attr")
 class RmAttr:
     def gen(self, g):
